@@ -14,6 +14,14 @@ TB = [
     "`sourmash lca index` (Model/LcaIndex.lean: load_taxonomy_assignments with -C/--start-column, header detection, --split-identifiers, --keep-identifier-versions, null names, duplicate identifiers, -f; the main loop with duplicate md5s, --require-taxonomy, --fail-on-missing-taxonomy; the --report counts) is tied to the code by running the real argument parser and command on one-signature files and a generated spreadsheet (`index` op) and comparing exit code, report counts and every table of the database it wrote; argparse, csv, the signature file format are trusted",
     "the command-line layer (Model/LcaCli.lean: summarize_main / load_singletons_and_count / count_signature / output_csv, classify, make_lca_counts / rankinfo_main, compare_csv, zip_lineage / display_lineage / is_lineage_match / make_lineage; MultiLineageDB.save + LineageDB_Sqlite) is tied to the code by running sourmash.__main__.main(argv) in process on files the adapter writes (databases saved as JSON or their SQLite file, one query signature per file) and comparing the CSV rows / rank counts / verdict lines; the human-readable stdout of summarize is executed but not compared",
     "`lca index --split-identifiers`: the identifier normalisation of the spreadsheet side (load_taxonomy_assignments) and of the signature side (index) are two functions of the model, each selected by its own translator item (Gen.idxTaxVersionCut / Gen.idxSigVersionCut, read from the statement at its site); the oracle of the `index` op is written from the documentation (one normalisation for both sides) and checks every answer of the database the command wrote",
+    "periphery: each modelled op reaches the code by one of several routes chosen by a per-case counter the model does not see "
+    "(insert positional / keyword / list lineage / defaults; save / save(format=) / save_to_json / save_to_sql, .lca.json and .lca.json.gz; "
+    "LCA_Database.load / load_single_database / load_databases / sourmash.load_file_as_index / LCA_SqliteDatabase.load (+ .select(ksize=)); "
+    "`--db a b` / `--db a --db b`; `--query a b` / repeated / `--query-from-file` / both at once; build_tree at once / incrementally / "
+    "LineageTree(RankLineageInfo)); every read op is executed twice by different routes (function / method / internal table) and must agree; "
+    "after every op the views of one database are compared in the adapter (len vs signatures vs manifest, hashvals vs the union of the "
+    "reconstructed sketches, the cached inverse tables _lid_to_idx / _idx_to_ident / _lineage_to_lid vs the primary ones, names); result objects "
+    "handed out earlier (signatures, answers) are kept and re-verified after later calls (`recheck`)",
     "md5 is not modelled: the generator computes md5(str(internal ksize) + retained hashes) itself, the adapter refuses a `sig` op whose md5 is not the real md5sum, and the model takes it as given (default identifiers of unnamed signatures, duplicate detection of `lca index`)",
     "`minhash.downsample(scaled=S).hashes` is modelled as the sketch's hashes <= max_hash (C01/C03's subject); Python dict ordering is modelled as insertion order; the iteration order of Python sets (the idx sets of _hashval_to_idx, rebuilt with set(list) by load) is a CPython artefact: the model keeps first-insertion order and every observation that comes out of a set (lineage lists, identifier lists, hash values, signatures) is sorted on both sides; json, sqlite3, gzip, the filesystem are trusted",
 ]
@@ -28,7 +36,9 @@ RULE = ("histories: 1..12 signatures (hashes shared heavily; values at max_hash(
         "in-memory database, after JSON save/load (and after further insertions into the loaded database and a second round trip), after conversion to SQLite, after downsample_scaled on each form and on a database "
         "built directly at the target scaled; summarize/classify with thresholds 0..5; find_lca on arbitrary lineage sets by both "
         "implementations; DNA / protein / dayhoff / hp databases; unnamed signatures (filename / md5-prefix identifiers); "
-        "`sourmash lca index` runs with generated spreadsheets and option sets.  non-trivial = >= 2 accepted insertions and >= 3 non-empty lineage answers (or >= 3 find_lca answers); "
+        "`sourmash lca index` runs with generated spreadsheets and option sets (conflicting duplicate rows under --force, identifiers normalising to the empty string).  "
+        "Every form is queried (la/ids/hv/sigs) before and after each downsample_scaled, two downsamplings in a row with queries in between, the downsampled database saved and reloaded; "
+        "earlier answers re-verified at the end of each case.  non-trivial = >= 2 accepted insertions and >= 3 non-empty lineage answers (or >= 3 find_lca answers); "
         "distinct = distinct op lists")
 
 
